@@ -73,6 +73,8 @@ type Exec struct {
 	effBusy      map[*ssa.Function]bool
 	curPos       token.Pos
 	prevTop      string
+	nret         int
+	clauseFn     *ssa.Function // function whose contract clauses are being instantiated (free variables by name)
 	curBlock     *ssa.BasicBlock
 	rootFresh    map[string]bool
 	loopFresh    map[*loopInfo]map[string]bool
@@ -870,6 +872,9 @@ func (x *Exec) execBlock(f *frame, b *ssa.BasicBlock, st *State) {
 			}
 			rs := st.clone()
 			if f.top {
+				// vacuity guard: this return must be reachable under the assumptions made so far
+				x.nret++
+				x.obls = append(x.obls, &Obligation{Name: fmt.Sprintf("%s/cover/return#%d", shortKey(x.P, fnKey(x.root)), x.nret), Kind: "cover", Func: fnKey(x.root), Pos: x.sc.pos(), Goal: not(rs.pc), Src: x.srcPos(v.Pos())})
 				x.checkPost(f, rs, vals, v.Pos())
 			}
 			f.rets = append(f.rets, retInfo{rs, vals, v.Pos()})
@@ -918,6 +923,7 @@ func (x *Exec) checkPost(f *frame, st *State, vals []*Val, pos token.Pos) {
 		return
 	}
 	for _, cl := range f.ctr.Ensures {
+		x.clauseFn = f.fn
 		args := x.clauseArgs(f.ctr, cl, f.args, x.bindingValues(st, f.fn, f.bindings), vals, nil)
 		g := x.evalClauseFn(cl.Fn, args, st, f.old)
 		x.oblige(st, "post", cl.Label, clauseName(cl), g, pos)
@@ -942,8 +948,15 @@ func (x *Exec) clauseArgs(c *Contract, cl *Clause, args []*Val, bindings []*Val,
 		case "result":
 			out[i] = results[a.Idx]
 		case "freevar":
-			v := bindings[a.Idx]
-			out[i] = v
+			idx := a.Idx
+			if x.clauseFn != nil {
+				for k, fv := range x.clauseFn.FreeVars {
+					if fv.Name() == a.Name {
+						idx = k
+					}
+				}
+			}
+			out[i] = bindings[idx]
 		case "logical":
 			if inst != nil && inst[a.Name] != nil {
 				out[i] = inst[a.Name]
